@@ -13,7 +13,7 @@ GH = 'commands::git_handlers'
 CFG = {'max_steps': 400000}
 
 BOUNDS = {
-    'quick': 'argv of <=3 tokens: fully symbolic 2-3 byte tokens, `-c`, `core.hooksPath=<1 symbolic byte>`, `-ccore.hooksPath=x`, `--config=core.hooksPath=x`, `commit`; hooks-path override absent / present (3 symbolic bytes); isatty symbolic; child status = symbolic exit code 0..255 or symbolic signal; spawn failure and wait failure',
+    'quick': 'argv of <=3 tokens: fully symbolic 2-3 byte tokens, `-c`, `core.hooksPath=<1 symbolic byte>`, `-ccore.hooksPath=x`, `--config=core.hooksPath=x`, `commit`; hooks-path override absent / present (3 symbolic bytes); isatty symbolic; child status = symbolic exit code 0..255 or symbolic signal; spawn failure and wait failure; exit_with_status with a symbolic exit code 0..255 / symbolic signal 1..64',
     'thorough': 'argv of <=4 tokens',
 }
 OUTSIDE = 'everything that happens inside git and inside the hooks around the hand-off: equality of HEAD / refs / index / worktree / stdout with a twin repository is behaviour of the git binary and of hook side effects on disk — not encodable, not claimed; that handle_git passes parsed_args.to_invocation_vec() (call-site fact; the vector itself is decided under C18)'
@@ -53,6 +53,8 @@ def plan(tier, seed):
             for i in range(0, len(sub), B):
                 tasks.append(('handoff', {'override': ov, 'child': child, 'shapes': sub[i:i + B], 'exit_on_completion': False}))
     tasks.append(('handoff', {'override': True, 'child': 'code', 'shapes': [[['lit', 'commit']]], 'exit_on_completion': True}))
+    for kind in ('exit', 'signal'):
+        tasks.append(('exit_status', {'kind': kind}))
     return tasks
 
 
@@ -131,7 +133,13 @@ def ob_handoff(h, shape):
     h.sample = h.witness()
 
 
-OBLIGATIONS = {'handoff': ob_handoff}
+def ob_exit_status(h, shape):
+    """the wrapper ends the way git ended: same exit code, or death by the same signal (kernel shared with C07)"""
+    from harness import c07
+    c07.ob_exit_status(h, shape)
+
+
+OBLIGATIONS = {'handoff': ob_handoff, 'exit_status': ob_exit_status}
 
 
 def replay(v, native):
@@ -142,6 +150,9 @@ def replay(v, native):
     import subprocess
     import tempfile
     inp = v['inputs']
+    if v['obligation'].startswith('K1-'):
+        from harness import c07
+        return c07.replay_exit_status(v, native)
     tmp = tempfile.mkdtemp(prefix='vc06')
     try:
         rec = os.path.join(tmp, 'recgit')
